@@ -28,7 +28,9 @@ EXPLANATION = (
     'that table creation emits (columns, column constraints, field indexes, '
     'unique_together, index_together, indexes, constraints) flows from the '
     'model being rebuilt into the SQL returned by the SQLite table rebuild, '
-    'and MockMeta takes each facet from the model signature.')
+    'and MockMeta takes each facet from the model signature; R-C01.6 every '
+    'columns= handed to the scanned database state is built from Field.column '
+    '(real column names), never from field names / attnames.')
 NOT_DECIDED = (
     'That the generated SQL executes and yields the same schema as creating '
     'the models from scratch, for any schema/sequence (needs SQLite and '
@@ -644,7 +646,73 @@ def r5_rebuild_facets(ctx):
                         key='mockmeta-severed:%s' % facet)
 
 
+def r6_column_kind(ctx):
+    """DatabaseState is scanned from the real database, so it is keyed by
+    real column names: every columns= passed to its lookups / updates must be
+    built from Field.column (never .name / .attname)."""
+    ctx.rule('R-C01.6')
+    p = ctx.program
+    eff = sqlite_effective_methods(ctx)
+    helper = p.func(COMMON,
+                    'BaseEvolutionOperations.get_column_names_for_fields')
+    rets = [n for n in walk_no_nested(helper.node)
+            if isinstance(n, ast.Return)]
+    ok = rets and all(
+        isinstance(r.value, (ast.ListComp, ast.GeneratorExp)) and
+        isinstance(r.value.elt, ast.Attribute) and
+        r.value.elt.attr == 'column' for r in rets)
+    if ok:
+        ctx.ok(helper, 'get_column_names_for_fields returns Field.column '
+               'values')
+    else:
+        ctx.finding(helper, rets[0] if rets else None,
+                    'get_column_names_for_fields does not return '
+                    'Field.column (%s): index lookups in the scanned '
+                    'database state use real column names and will miss '
+                    'fields whose column differs (db_column)' % (
+                        unparse(rets[0].value) if rets else '?'),
+                    key='column-helper')
+    n = 0
+    for name, m in sorted(eff.items()):
+        if name.startswith('super:'):
+            continue
+        for c in walk_no_nested(m.node, include_lambda=True):
+            if not (isinstance(c, ast.Call) and call_name(c) in (
+                    'find_index', 'add_index', 'remove_index') and
+                    'state' in unparse(c.func)):
+                continue
+            cols = kwarg(c, 'columns')
+            if cols is None:
+                continue
+            n += 1
+
+            def col_kind(e, depth=0):
+                if isinstance(e, ast.Attribute):
+                    return e.attr == 'column'
+                if isinstance(e, ast.Call):
+                    return call_name(e) == 'get_column_names_for_fields'
+                if isinstance(e, (ast.List, ast.Tuple)):
+                    return all(col_kind(x, depth) for x in e.elts)
+                if isinstance(e, ast.Subscript):
+                    return const_str(e.slice) in ('name', 'column')
+                if isinstance(e, ast.Name) and depth < 3:
+                    defs = [a.value for a in walk_no_nested(m.node)
+                            if isinstance(a, ast.Assign) and any(
+                                isinstance(t, ast.Name) and t.id == e.id
+                                for t in a.targets)]
+                    return bool(defs) and all(col_kind(d, depth + 1)
+                                              for d in defs)
+                return False
+            if col_kind(cols):
+                ctx.ok(m, 'columns= is built from Field.column', c)
+            else:
+                ctx.finding(m, c, 'columns=%s passed to the database state is '
+                            'not built from Field.column' % unparse(cols))
+    ctx.floor('database-state index calls with columns=', n, 8)
+
+
 def run(ctx):
+    r6_column_kind(ctx)
     r1_op_type_protocol(ctx)
     r2_reflective_dispatch(ctx)
     r3_sqlite_tag_protocol(ctx)
